@@ -60,7 +60,7 @@ ASSUMPTIONS = [
     "cross-set models are run with use_pca=False (thorough: also n_pca_modes='all'); PCA truncation is C09/C16's subject",
     "fractions/correlations an accessor refuses on the source node are compared as 'refused on both nodes' (differential oracle, DESIGN 4.2)",
 ]
-TALLY_KEYS = ("model", "kind", "container", "depth", "latname", "wpres", "entry")
+TALLY_KEYS = ("model", "kind", "container", "depth", "latname", "wpres", "entry", "store")
 TRUSTED = ["statsmodels import shim (/verif/shims) so that xeofs.cross constructors can be called; correction=None never reaches it"]
 MAX_REFUSED_FRACTION = 0.02
 
@@ -378,6 +378,23 @@ def cases(tier, seed):
     for c in out:
         c.setdefault("entry", "fit")
 
+    # ---------------------------------------------------------------- storage type of the data
+    # The same numbers held in integer storage (counts, packed data) are the same input: every weights / use_coslat /
+    # pre-multiplied-data equivalence is repeated on an integer-valued field stored as int32 (int16, int64, uint8 thorough).
+    # A node whose matrix is no longer integer-valued (after a fold or an affine map) is stored as float64 again.
+    extra = []
+    for c in out:
+        kinds = [e["kind"] for e in c["path"]]
+        if not ("fold" in kinds or "cos2w" in kinds) or c["model"] == "ComplexEOF" or c.get("wpres", "same") != "same":
+            continue
+        if c["spec"] != "geometric" or c["latname"] != "lat" or c.get("pca", "off") != "off":
+            continue
+        if not thorough and (c["depth"] > 1 and c["kind"] != "cos2w>fold" or c["model"] not in ("EOF", "MCA")):
+            continue
+        for store in (("int32",) if not thorough else ("int32", "int16", "int64", "uint8")):
+            extra.append(dict(c, store=store))
+    out += extra
+
     for c in out:
         if "patterns" in c:
             c["patterns"] = thorough  # homogeneous/heterogeneous correlation patterns are compared in the thorough tier only (0.1 s per fit)
@@ -466,6 +483,11 @@ class Ctx:
         self.std = [bool(x) for x in st] if isinstance(st, (list, tuple)) else [bool(st)] * self.nf
         self.fields = [Field(self.n, p, case["latname"], case["lats"][i], case["container"], "xy"[i]) for i, p in enumerate(sh[1:])]
         self.base = [D.make_matrix(self.n, p, case["spec"], 1.0, self.cplx, seed, salt=80 + i) for i, p in enumerate(sh[1:])]
+        self.store = case.get("store")
+        if self.store:  # integer-valued numbers (non-negative for unsigned storage)
+            self.base = [np.rint(M * (40.0 / np.abs(M).max())) for M in self.base]
+            if self.store.startswith("u"):
+                self.base = [M - M.min() for M in self.base]
         self.W, self.u = [], []
         for i, p in enumerate(sh[1:]):
             rng = np.random.default_rng([int(seed), 808, p, i])
@@ -526,13 +548,28 @@ class Ctx:
     # ---- real fits
     def fit(self, node):
         case = self.case
-        args = [self.fields[f].build(node[f]["M"]) for f in range(self.nf)]
+        args = [self._stored(self.fields[f].build(node[f]["M"]), node[f]["M"]) for f in range(self.nf)]
         wts = [None if node[f]["w"] is None else self._present_weights(self.fields[f], node[f]["w"]) for f in range(self.nf)]
         with warnings.catch_warnings():
             warnings.simplefilter("ignore")
             if self.nf == 1:
                 return self._fit_single(node, args[0], wts[0])
             return self._fit_cross(node, args, wts)
+
+    def _stored(self, obj, M):
+        """the field in the case's storage type, if its numbers are representable there exactly (else float64 as built)"""
+        import xarray as xr
+
+        if not self.store or np.iscomplexobj(M):
+            return obj
+        info = np.iinfo(self.store)
+        if not (np.array_equal(M, np.rint(M)) and M.min() >= info.min and M.max() <= info.max):
+            return obj
+        cast = lambda o: o.astype(self.store)  # noqa: E731
+        out = [cast(o) for o in obj] if isinstance(obj, list) else cast(obj)
+        first = out[0] if isinstance(out, list) else (out[list(out.data_vars)[0]] if isinstance(out, xr.Dataset) else out)
+        assert str(first.dtype) == self.store
+        return out
 
     def _present_weights(self, fld, wvec):
         """the weight vector (label-keyed: column j = lat j//nlon, lon j%nlon) as an xarray object in the case's presentation:
@@ -882,6 +919,7 @@ def node_keys(case):
     base = {k: case[k] for k in ("model", "shape", "spec", "center", "standardize", "container", "latname", "lats", "n_modes", "start")}
     base["wpres"] = case.get("wpres", "same")
     base["entry"] = case.get("entry", "fit")
+    base["store"] = case.get("store")
     base["alpha"] = case.get("alpha")
     base["pca"] = case.get("pca")
     return [json.dumps([base, case["path"][:i]], sort_keys=True) for i in range(len(case["path"]) + 1)]
